@@ -205,15 +205,21 @@ class UGrammarPredictorLayer(nn.Module, Generic[A, U, V, W]):
                 else:
                     continue
             # If there are variables we need to normalise
-            total = sum(
-                sum(np.exp(t_prob.item()) for t_prob in dico.values())
-                for P, dico in tags[S].items()
-            )
+            # The total mass of the derivable rules is computed in log space:
+            # the exponential of a log-softmax value underflows to 0 when the
+            # slice is dominated by a rule that cannot be derived from S
+            all_tags = [t_prob for dico in tags[S].values() for t_prob in dico.values()]
+            has_rules = len(all_tags) > 0
+            log_total: float = 0
+            if has_rules:
+                log_total = torch.logsumexp(
+                    torch.stack(all_tags).double(), dim=0
+                ).item()
             if variables or constants:
                 var_probability = self.variable_probability
-                if total > 0:
+                if has_rules:
                     # Normalise rest
-                    to_add: float = np.log((1 - self.variable_probability) / total)
+                    to_add: float = np.log(1 - self.variable_probability) - log_total
                     for P in tags[S]:
                         tags[S][P] = {
                             z: prob + to_add for z, prob in tags[S][P].items()
@@ -240,10 +246,10 @@ class UGrammarPredictorLayer(nn.Module, Generic[A, U, V, W]):
                         tags[S][P][tuple(v)] = torch.tensor(  # type: ignore
                             normalised_variable_logprob
                         ).to(device)
-            else:
+            elif has_rules:
                 # We still need to normalise probabilities
                 # Since all derivations aren't possible
-                to_add = np.log(1 / total)
+                to_add = -log_total
                 for P in tags[S]:
                     tags[S][P] = {z: prob + to_add for z, prob in tags[S][P].items()}
         start_tags: Dict[Tuple[Type, U], Tensor] = {}
@@ -253,8 +259,10 @@ class UGrammarPredictorLayer(nn.Module, Generic[A, U, V, W]):
             for S in all_S:
                 if S in grammar.starts:
                     start_tags[S] = z[i]
-        total = sum(np.exp(t_prob.item()) for t_prob in start_tags.values())
-        to_add = np.log(1 / total)
+        # log space again: these are raw outputs, their exponential can overflow
+        to_add = -torch.logsumexp(
+            torch.stack(list(start_tags.values())).double(), dim=0
+        ).item()
         start_tags = {S: t_prob + to_add for S, t_prob in start_tags.items()}
         grammar = TensorLogProbUGrammar(grammar, tags, start_tags)
         return grammar
